@@ -41,7 +41,7 @@ type ReaderSpec struct {
 	Size     int    `json:"size"`
 	Seed     int64  `json:"seed"`
 	FailAt   int64  `json:"failAt"`   // byte offset at which the source fails (-1: never)
-	FailKind string `json:"failKind"` // eof | custom | partial | unexpected
+	FailKind string `json:"failKind"` // eof | custom | partial | unexpected | transient (one failed Read, then the source recovers)
 	DelayUs  int    `json:"delayUs"`  // random sleep (0..DelayUs) inside Read, after the bytes are taken
 	Splits   []int  `json:"splits"`   // policy "script": k-th Read returns Splits[k]/SplitC of a sample (TLC-simulated short reads)
 	SplitC   int    `json:"splitC"`
@@ -271,7 +271,18 @@ func (r *obsReader) Read(p []byte) (int, error) {
 		}
 	}
 	// injected failure at byte offset FailAt
-	if r.rs.FailAt >= 0 && err == nil {
+	if r.rs.FailAt >= 0 && err == nil && r.rs.FailKind == "transient" {
+		if !r.failed && r.off+int64(n) > r.rs.FailAt {
+			if r.off >= r.rs.FailAt {
+				n = 0
+			} else {
+				n = int(r.rs.FailAt - r.off)
+			}
+			if n == 0 {
+				err = errCustom
+			}
+		}
+	} else if r.rs.FailAt >= 0 && err == nil {
 		if r.off >= r.rs.FailAt {
 			n = 0
 			err = r.failErr()
@@ -454,11 +465,19 @@ func stubRunner(item int) randomness.TestFunc {
 			return &randomness.TestResult{Name: name, P: 0, Q: 0, Pass: false}
 		}
 		pl := c.plan[smp][item]
-		p := 0.5
+		p, p2 := 0.5, 0.0
 		if !pl.pass {
 			p = 0.001
 		}
-		return &randomness.TestResult{Name: name, P: p, Q: pl.q, Pass: pl.pass}
+		if item == 3 {
+			// the overlapping-subsequence item has two P-values and passes iff both do: a failing sample fails on either
+			// one (so "Pass" cannot be re-derived from P alone)
+			p2 = 0.5
+			if !pl.pass && smp%2 == 0 {
+				p, p2 = 0.5, 0.001
+			}
+		}
+		return &randomness.TestResult{Name: name, P: p, Q: pl.q, P2: p2, Q2: p2, Pass: pl.pass}
 	}
 }
 
